@@ -406,9 +406,13 @@ XPathProcessorImpl::tokenize(const XalanDOMString&  pat)
                 {
                     startSubstring = i;
 
-                    if (XalanXMLChar::isDigit(c) == true)
+                    // A number may also start with the decimal point...
+                    if (XalanXMLChar::isDigit(c) == true ||
+                        (c == XalanUnicode::charFullStop &&
+                         i + 1 < nChars &&
+                         XalanXMLChar::isDigit(pat[i + 1]) == true))
                     {
-                        bool    gotFullStop = false;
+                        bool    gotFullStop = c == XalanUnicode::charFullStop;
 
                         while(i < nChars - 1)
                         {
